@@ -431,7 +431,7 @@ func (s *sys) Check() *eng.Violation {
 func spec(r *eng.Run) eng.SeqSpec {
 	theRun = r
 	initDomains(r)
-	return eng.SeqSpec{Configs: []string{"fs+mem"}, New: newSys, Depth: eng.Pick(r, 4, 5)}
+	return eng.SeqSpec{Configs: []string{"fs+mem"}, New: newSys, Depth: 4}
 }
 
 func main() {
